@@ -1,7 +1,7 @@
 (* C03 -- block manager transparency and structural coherence: property theorems only; each closed by
    `exact` and followed by Print Assumptions.  Models: SF/Blocks.v, SF/BlocksOps.v. *)
 Require Import SF.Prelude SF.PySlice SF.Dtype SF.Value SF.PyDyn SF.Blocks SF.BlocksOps SF.BlocksOpsVal Gen.Gen_util Gen.Gen_type_blocks.
-Require Import Proofs.BlocksSelect Proofs.BlocksRefine Proofs.BlocksOps Proofs.BlocksOpsRow Proofs.BlocksOpsResolve Proofs.BlocksOpsResolveGen Proofs.BlocksOpsFill Proofs.BlocksOpsExamples.
+Require Import Proofs.BlocksSelect Proofs.BlocksRefine Proofs.BlocksOps Proofs.BlocksOpsRow Proofs.BlocksOpsResolve Proofs.BlocksOpsResolveGen Proofs.BlocksOpsFill Proofs.BlocksOpsClip Proofs.BlocksOpsExamples.
 
 (* Column selection through the blocks (directory, contiguous bundles, per-block slices) equals selection on
    the flattened columns, same error class, for every layout and every duplicate-free key (coordinator's core). *)
@@ -180,3 +180,39 @@ Theorem C03_dropna_keep_refines : forall (A : Type) (na : A -> bool) (cond : lis
   M_dropna_keep_columns na cond t = S_dropna_keep_columns na cond (flatten t).
 Proof. exact (@dropna_keep_refines). Qed.
 Print Assumptions C03_dropna_keep_refines.
+
+(* ---- get_block_match (clip, assign by blocks): the stack of source arrays.  One request of width `need`
+   gets exactly the next `need` source columns and leaves exactly the rest (split remainder pushed back);
+   a sequence of requests hands out the source columns in order, piece k of width ws[k]; it fails only when
+   the source has fewer columns than requested. *)
+Theorem C03_take_cols_spec : forall (X : Type) (src : list (list X)) (need : nat),
+  match take_cols src need with
+  | Some (cols, src') => cols = firstn need (concat src) /\ concat src' = skipn need (concat src) /\
+                         length cols = need /\ (need <= length (concat src))%nat
+  | None => (length (concat src) < need)%nat
+  end.
+Proof. exact (@take_cols_spec). Qed.
+Print Assumptions C03_take_cols_spec.
+
+Theorem C03_take_many_spec : forall (X : Type) (ws : list nat) (src : list (list X)),
+  match take_many src ws with
+  | Some (pieces, rest) => concat pieces ++ concat rest = concat src /\ map (@length X) pieces = ws
+  | None => (length (concat src) < fold_right Nat.add 0%nat ws)%nat
+  end.
+Proof. exact (@take_many_spec). Qed.
+Print Assumptions C03_take_many_spec.
+
+(* TypeBlocks.clip with Frame bounds: for EVERY receiver layout and EVERY layout of each bound frame the result is
+   the column-by-column clip (column j against column j of each bound), same error when a bound is too narrow. *)
+Theorem C03_clip_refines : forall (A : Type) (clipc : A -> option A -> option A -> A) (t : tb A) (lo hi : bound_stack),
+  wf_tb t -> t <> [] ->
+  res_map (@flatten A) (M_clip clipc t lo hi) = S_clip clipc (flatten t) (stack_cols lo) (stack_cols hi).
+Proof. exact (@clip_refines). Qed.
+Print Assumptions C03_clip_refines.
+
+Theorem C03_clip_layout_independent : forall (A : Type) (clipc : A -> option A -> option A -> A)
+  (t1 t2 : tb A) (lo1 hi1 lo2 hi2 : bound_stack), wf_tb t1 -> wf_tb t2 -> t1 <> [] -> t2 <> [] ->
+  flatten t1 = flatten t2 -> stack_cols lo1 = stack_cols lo2 -> stack_cols hi1 = stack_cols hi2 ->
+  res_map (@flatten A) (M_clip clipc t1 lo1 hi1) = res_map (@flatten A) (M_clip clipc t2 lo2 hi2).
+Proof. exact (@clip_layout_independent). Qed.
+Print Assumptions C03_clip_layout_independent.
